@@ -20,5 +20,5 @@ Extraction "model.ml"
   lin_check serve serve_fixed hstep h0
   toPflags served_osflags frun accept_raw quiescent emitted arrived caccept_trace areplay_trace all_used available scan ids_from
   FsTree.c_remove FsTree.c_mkdirall FsTree.c_removeall FsTree.spec_mkdirall FsTree.spec_removeall Reply.read_reply Reply.write_reply Reply.list_reply Reply.stat_reply Reply.readlink_reply Shutdown.shrun Shutdown.sh0 Shutdown.eager_schedule Shutdown.after_return OffsetLock.layout_ok FileLock.wire_scan FsTree.p_remove FsTree.p_rmdir FsTree.p_mkdir FsTree.lstat FsTree.stat FsTreeP.cnt
-  FsTree.p_rename FsTree.p_link FsTree.p_symlink FsTree.children FsTree.c_walk FsTree.spec_walk FsTree.c_glob FsTree.spec_glob
+  FsTree.p_rename FsTree.p_link FsTree.p_symlink FsTree.children FsTree.c_walk FsTree.spec_walk FsTree.c_glob FsTree.spec_glob FsTree.p_open
   run_ls parse_ls six_months_before shows_year civil_from_days days_from_civil.
